@@ -59,7 +59,7 @@ QCM = QM + "_ConsumerMixin"
 BUF, LEN = "_tempDataBuffer", "_tempDataLen"
 # the methods the rules are written against; any other private method of these classes is a helper introduced later and is
 # analysed as if inlined at its call sites (sa.props._lib_d.Inliner)
-KNOWN = ['__init__', '_closeWriteConnection', '_getLogPrefix', '_isSendBufferFull', '_maybePauseProducer', '_postLoseConnection', 'connectionLost', 'doRead', 'doWrite', 'fileno', 'getHost', 'getPeer', 'logPrefix', 'loseConnection', 'loseWriteConnection', 'pauseProducing', 'readConnectionLost', 'registerProducer', 'resumeProducing', 'startReading', 'startWriting', 'stopConsuming', 'stopProducing', 'stopReading', 'stopWriting', 'unregisterProducer', 'write', 'writeConnectionLost', 'writeSequence', 'writeSomeData']
+KNOWN = ['_concatenate', '_dataMustBeBytes', '__init__', '_closeWriteConnection', '_getLogPrefix', '_isSendBufferFull', '_maybePauseProducer', '_postLoseConnection', 'connectionLost', 'doRead', 'doWrite', 'fileno', 'getHost', 'getPeer', 'logPrefix', 'loseConnection', 'loseWriteConnection', 'pauseProducing', 'readConnectionLost', 'registerProducer', 'resumeProducing', 'startReading', 'startWriting', 'stopConsuming', 'stopProducing', 'stopReading', 'stopWriting', 'unregisterProducer', 'write', 'writeConnectionLost', 'writeSequence', 'writeSomeData']
 
 
 def _q(cls, name):
